@@ -155,6 +155,8 @@ func cliRun(args []string) int {
 			flags, plats = append(flags, "--platform", "windows"), []string{"windows"}
 		case "all":
 			flags, allPlat = append(flags, "--all-platforms"), true
+		case "nocross": // the switch on its own: the host platform without what only qualifies as cross-platform
+			flags, noCross = append(flags, "--no-cross-platform"), true
 		case "linuxnocross":
 			flags, plats, noCross = append(flags, "--platform", "linux", "--no-cross-platform"), []string{"linux"}, true
 		}
